@@ -32,6 +32,8 @@ CIRCUITS = [
     {"ops": [{"gate": G("RX", "s:theta"), "q": [0]}], "n": 1, "bound": False},
     {"ops": [{"gate": G("X"), "q": [0]}], "n": 1, "bound": True},
     {"ops": [], "n": 1, "bound": True},
+    # two CONSECUTIVE non-gate operations form one non-native segment (one job), between two native ones
+    {"ops": [{"gate": G("T"), "q": [0]}, {"mp": [0.1, 0.2]}, {"mp": [0.3, -0.2]}, {"gate": G("X"), "q": [0]}], "n": 1, "bound": True},
 ]
 for _c in CIRCUITS:
     _c["n_ops"] = len(_c["ops"])
@@ -332,7 +334,7 @@ def menu(core=False):
     for ci in range(len(CIRCUITS)):
         for n in (ns_run if not core else [2, 0]):
             ev.append(["run", ci, n])
-    batches = [[], [1], [1, 2], [2, 0, 5], [3, 6, 1]] if not core else [[1, 2], [2, 0, 5]]
+    batches = [[], [1], [1, 2], [2, 0, 5], [3, 6, 1], [7, 1]] if not core else [[1, 2], [2, 0, 5]]
     for b in batches:
         opts = [3, 0, -2, [2 + i for i in range(len(b))], [2] * (len(b) + 1)]
         if b:
@@ -345,7 +347,7 @@ def menu(core=False):
             if core and ns in (-2,):
                 continue
             ev.append(["batch", b, ns])
-    for ci in ((1, 2, 3) if not core else (2,)):  # the unbound circuit is kept out: what an exact distribution of it should do is not stated
+    for ci in ((1, 2, 3, 7) if not core else (2,)):  # the unbound circuit is kept out: what an exact distribution of it should do is not stated
         for n in (None, 2, 0):
             ev.append(["dist", ci, n])
     return ev
@@ -362,8 +364,8 @@ def run(run):
     for kind in KINDS:
         # the tracker serialises every circuit it records; the JSON format only covers gate circuits, so the MultiPhaseOperation circuit (3)
         # is kept out of tracker histories (to_dict raises AttributeError for it - noted in DESIGN.md, outside the statement)
-        full = [e for e in full_all if not (kind.startswith("track") and uses(e, 3))]
-        core = [e for e in core_all if not (kind.startswith("track") and uses(e, 3))]
+        full = [e for e in full_all if not (kind.startswith("track") and (uses(e, 3) or uses(e, 7)))]
+        core = [e for e in core_all if not (kind.startswith("track") and (uses(e, 3) or uses(e, 7)))]
         cases.append({"kind": kind, "hist": []})
         for e in full:
             cases.append({"kind": kind, "hist": [e]})
